@@ -8,7 +8,7 @@ import (
 )
 
 var Specs = map[string]*core.Spec{
-	"C13": {Prop: "C13", World: "W2 c13kv", Gen: Gen, Decode: Decode, Exec: Exec,
+	"C13": {Prop: "C13", World: "W2 c13kv", Gen: Gen, Decode: Decode, Exec: Exec, LightRuns: true,
 		Rule:           "seeded logs of set/delete over 3-6 keys with versions current/stale/zero/future, values with JSON-sensitive characters, random batch cuts per replica, snapshot save/recover (writes between prepare and save, short reads, fresh or existing receiver), all lookup kinds with the glob patterns the callers use; non-trivial = a version mismatch occurred and a multi-entry batch was applied; distinct = digests of all results",
 		Real:           []string{"storage/kv LFSM (Update, Lookup, PrepareSnapshot, SaveSnapshot, RecoverFromSnapshot)", "storage/kv MapStore"},
 		Stub:           []string{"Raft library: single-threaded driver honouring the IConcurrentStateMachine contract"},
